@@ -882,10 +882,16 @@ def coq_slice(sl):
 
 
 def coq_idx1(i):
-    return '(XSlice %s)' % coq_slice(i) if isinstance(i, slice) else '(XInt %s)' % zl(i)
+    if isinstance(i, slice):
+        return '(XSlice %s)' % coq_slice(i)
+    if isinstance(i, (list, float, str)):
+        return 'XBad'
+    return '(XInt %s)' % zl(i)
 
 
 def coq_pidx(i):
+    if isinstance(i, (float, str)):
+        return 'PBad'
     if isinstance(i, slice):
         return '(PSlice %s)' % coq_slice(i)
     if isinstance(i, list):
@@ -922,7 +928,9 @@ def gen_pidx(rng, n):
     if r < 0.65:
         return [gen_int_index(rng, n) if rng.random() < 0.2 else rng.randrange(-n, n) if n else 0
                 for _ in range(rng.choice([0, 1, 2, 3]))]
-    return tuple((gen_slice(rng, n) if rng.random() < 0.45 else gen_int_index(rng, n))
+    if r < 0.7:
+        return rng.choice([1.0, 'a'])
+    return tuple((gen_slice(rng, n) if rng.random() < 0.45 else [0] if rng.random() < 0.06 else gen_int_index(rng, n))
                  for _ in range(rng.choice([0, 1, 2, 2, 3])))
 
 
